@@ -21,6 +21,9 @@ ASSUMPTIONS = ['reference interpreters A and B agree', 'goals that are not calla
                'findall instances containing unbound variables are compared modulo variable identity '
                '(sharing vs copying of unbound variables is not judged)',
                'STO unifications discarded']
+RULE_ADDED = (' Added after the rounds of independently written changes (DESIGN.md 12.2): ' +
+              "reload histories (meta-calls before and after the goal's predicate is redefined by load / register / assert); closures over wd/5..wd/15 with up to 15 extra arguments.")
+RULE = RULE + RULE_ADDED
 
 FACTS = [
     (C('foo', A('a')), ('true',)), (C('foo', A('b')), ('true',)), (C('foo', A('c')), ('true',)),
